@@ -128,6 +128,29 @@ pub fn call(name: &str, args: &[String]) -> Value {
                 Err(e) => json!({"err": format!("{e:?}")}),
             }
         }
+        "copy_source_roundtrip" => {
+            // parse(format_to_string(x)) == x for keys over a reserved-character-rich alphabet (1..3 units) x versions
+            let units = ["a", "/", "%", "?", "=", " ", "\u{e9}", "%41", "+", "&", "#", "\u{4e2d}", "~", ";"];
+            let versions: [Option<&str>; 3] = [None, Some("v1"), Some("v 1?&=%2F")];
+            let mut n = 0u64;
+            let mut bad = vec![];
+            let mut keys: Vec<String> = vec![];
+            for a in units { keys.push(a.to_string()); for b in units { keys.push(format!("{a}{b}")); for c in units { keys.push(format!("{a}{b}{c}")); } } }
+            for key in &keys {
+                if key.starts_with('/') && key.len() == 1 { /* a key may be "/" */ }
+                for v in versions {
+                    let x = s3s::dto::CopySource::Bucket { bucket: "abc".into(), key: key.as_str().into(), version_id: v.map(Into::into) };
+                    let text = x.format_to_string();
+                    n += 1;
+                    let ok = match s3s::dto::CopySource::parse(&text) {
+                        Ok(s3s::dto::CopySource::Bucket { bucket, key: k, version_id }) => &*bucket == "abc" && &*k == key.as_str() && version_id.as_deref() == v,
+                        _ => false,
+                    };
+                    if !ok && bad.len() < 6 { bad.push(json!({"key": key, "version": v, "text": text, "back": format!("{:?}", s3s::dto::CopySource::parse(&text))})); }
+                }
+            }
+            json!({"evaluations": n, "bad": bad})
+        }
         "copy_source_parse" => match s3s::dto::CopySource::parse(&args[0]) {
             Ok(s3s::dto::CopySource::Bucket { bucket, key, version_id }) => json!({"ok": {"bucket": &*bucket, "key": &*key, "version_id": version_id.as_deref()}}),
             Ok(_) => json!({"ok": "access-point"}),
